@@ -1,7 +1,510 @@
-//! (stub - filled in by the corresponding check)
+//! spec -> impl replay for the Kalman filters - property C07 (restricted scope).
+//!
+//! Three kinds of TLC-generated cases (spec/kalman):
+//!  * `gate`  (GenGate.tla): distances in 1/10000 units with the direct and inverted cost the specification
+//!    requires for the box (5 dof), point and point-vector (2 dof) filters -> `calculate_cost(d, inverted)`;
+//!  * `proto` (GenKP.tla): operation sequences initiate(m_i0); (predict | update(m_j) | distance(m_j))* with
+//!    flags telling where the stationary outcome is mandated -> box filter, and the vector filter against one
+//!    point filter per point (bitwise through `verif_raw`); covariance symmetric / positive-definite after
+//!    every operation;
+//!  * `exact` (GenK.tla): two predict/update cycles of the textbook recurrence in exact rationals -> box
+//!    filter (x or y moving, everything else stationary) and point filter, 1e-3 relative.
 use crate::common::*;
+use serde_json::{json, Value};
+use similari::utils::bbox::Universal2DBox;
+use similari::utils::kalman::kalman_2d_box::Universal2DBoxKalmanFilter;
+use similari::utils::kalman::kalman_2d_point::Point2DKalmanFilter;
+use similari::utils::kalman::kalman_2d_point_vec::Vec2DKalmanFilter;
 
-pub fn main(_opts: &Opts) {
-    eprintln!("vh: engine not built yet");
-    std::process::exit(2);
+type Mis = Option<(String, Value)>;
+
+/// any point type the filters accept (nalgebra's Point2<f32>) - named only through inference
+fn pt<P: From<[f32; 2]>>(x: f32, y: f32) -> P {
+    P::from([x, y])
+}
+
+fn milli(v: &Value) -> f32 {
+    (ji(v) as f64 / 1000.0) as f32
+}
+
+fn rat(v: &Value) -> f64 {
+    ji(&v[0]) as f64 / ji(&v[1]) as f64
+}
+
+fn bits(v: &[f32]) -> Vec<u32> {
+    v.iter().map(|x| x.to_bits()).collect()
+}
+
+// ------------------------------------------------------------------------------------------------ gate
+
+/// the decimal text of d / 10000, parsed the way a Rust literal is (so 59915 is exactly the table entry 5.9915)
+fn dist_f32(d: i64) -> f32 {
+    format!("{}.{:04}", d / 10000, d % 10000).parse::<f32>().unwrap()
+}
+
+fn gate_state(cost: f64, d: f64, upper: f64, inverted: bool) -> &'static str {
+    let (gated, open) = if inverted { (0.0, upper - d) } else { (upper, d) };
+    // at d = upper / 2 ... the two coincide only for direct d = upper; ambiguity is harmless (label only)
+    if (cost - open).abs() <= 1e-4 {
+        "open"
+    } else if (cost - gated).abs() <= 1e-4 {
+        "gated"
+    } else {
+        "other"
+    }
+}
+
+fn replay_gate(idx: usize, c: &Value, rep: &mut Report, perturb: usize) {
+    let filter = jstr(c, "filter").to_string();
+    let ds: Vec<i64> = jarr(c, "d").iter().map(ji).collect();
+    let upper = jint(c, "upper") as f64 / 1e4;
+    let dof = jint(c, "dof");
+    let gate = if dof == 2 { 59915 } else { 110700 };
+    if ds.iter().any(|d| (d - gate).abs() <= 10000 || (d - 59915).abs() <= 10000 || (d - 110700).abs() <= 10000) {
+        rep.nontrivial += 1;
+        rep.count("gate_near_a_gate", 1);
+    }
+    let fs: Vec<f32> = ds.iter().map(|d| dist_f32(*d)).collect();
+    for inverted in [false, true] {
+        let key = if inverted { "inverted" } else { "direct" };
+        let exp: Vec<f64> = jarr(c, key).iter().map(|e| ji(e) as f64 / 1e4 * if perturb == 1 { 1.01 } else { 1.0 }).collect();
+        let fs2 = fs.clone();
+        let flt = filter.clone();
+        let got = std::panic::catch_unwind(move || -> Vec<f32> {
+            match flt.as_str() {
+                "box" => fs2.iter().map(|d| Universal2DBoxKalmanFilter::calculate_cost(*d, inverted)).collect(),
+                "point" => fs2.iter().map(|d| Point2DKalmanFilter::calculate_cost(*d, inverted)).collect(),
+                "vec" => Vec2DKalmanFilter::calculate_cost(&fs2, inverted),
+                o => panic!("filter {}", o),
+            }
+        });
+        let got = match got {
+            Ok(g) => g,
+            Err(_) => return rep.mismatch(&format!("{}:calculate_cost:panic", filter), idx, c, json!({"inverted": inverted})),
+        };
+        if got.len() != exp.len() {
+            return rep.mismatch(&format!("{}:calculate_cost:length", filter), idx, c, json!({"impl": got}));
+        }
+        for i in 0..exp.len() {
+            rep.steps += 1;
+            if !((got[i] as f64 - exp[i]).abs() <= 1e-4) {
+                let d = ds[i] as f64 / 1e4;
+                let sig = format!(
+                    "{}:calculate_cost:{}:spec={}:impl={}",
+                    filter,
+                    key,
+                    gate_state(exp[i], d, upper, inverted),
+                    gate_state(got[i] as f64, d, upper, inverted)
+                );
+                return rep.mismatch(&sig, idx, c, json!({"d": d, "inverted": inverted, "spec": exp[i], "impl": got[i], "dof": dof}));
+            }
+        }
+    }
+}
+
+// ------------------------------------------------------------------------------------------------ covariance facts
+
+/// symmetric and positive-definite (Cholesky in f64 on the f32 values).
+/// Symmetry tolerance for entry (i, j): 1e-4 relative to sqrt(P_ii P_jj) plus 1e-5 relative to the largest
+/// sqrt(P_ii P_jj) seen so far in the sequence (`seen` = running maximum of every diagonal entry): an update
+/// subtracts numbers of the prior's magnitude, so the rounding error of the difference scales with the prior,
+/// not with the (possibly much smaller) posterior.  Numeric accuracy itself is outside this check's scope.
+fn cov_facts(who: &str, cov: &[f32], perturb: usize, seen: &mut Vec<f64>) -> Mis {
+    let n = (cov.len() as f64).sqrt().round() as usize;
+    seen.resize(n, 0.0);
+    let mut a: Vec<f64> = cov.iter().map(|x| *x as f64).collect();
+    if perturb == 3 {
+        // symmetric, positive diagonal, but correlation 2 between position 0 and its velocity
+        let h = n / 2;
+        let v = 2.0 * (a[0] * a[h * n + h]).sqrt();
+        a[h] = v;
+        a[h * n] = v;
+    }
+    if perturb == 4 {
+        a[1] += a[0];
+    }
+    if a.iter().any(|x| !x.is_finite()) {
+        return Some((format!("{}:covariance:not finite", who), json!({"cov": cov})));
+    }
+    for i in 0..n {
+        if !(a[i * n + i] > 0.0) {
+            return Some((format!("{}:covariance:diagonal not positive", who), json!({"i": i, "value": a[i * n + i]})));
+        }
+        seen[i] = seen[i].max(a[i * n + i]);
+    }
+    for i in 0..n {
+        for j in 0..i {
+            let scale = (a[i * n + i] * a[j * n + j]).sqrt();
+            if (a[i * n + j] - a[j * n + i]).abs() > 1e-4 * scale + 1e-5 * (seen[i] * seen[j]).sqrt() {
+                return Some((
+                    format!("{}:covariance:asymmetric", who),
+                    json!({"i": i, "j": j, "ij": a[i * n + j], "ji": a[j * n + i]}),
+                ));
+            }
+        }
+    }
+    // Cholesky on the symmetrised matrix
+    let mut l = vec![0.0f64; n * n];
+    for i in 0..n {
+        for j in 0..=i {
+            let mut s = 0.5 * (a[i * n + j] + a[j * n + i]);
+            for k in 0..j {
+                s -= l[i * n + k] * l[j * n + k];
+            }
+            if i == j {
+                if !(s > 0.0) {
+                    return Some((format!("{}:covariance:not positive-definite", who), json!({"pivot": i, "value": s})));
+                }
+                l[i * n + i] = s.sqrt();
+            } else {
+                l[i * n + j] = s / l[j * n + j];
+            }
+        }
+    }
+    None
+}
+
+fn near(got: f64, exp: f64, abs: f64) -> bool {
+    got.is_finite() && (got - exp).abs() <= 1e-3 * exp.abs() + abs
+}
+
+/// stationary outcome: position = measurement, velocity = 0
+fn stationary(who: &str, mean: &[f32], meas: &[f32], perturb: usize) -> Mis {
+    let n = meas.len();
+    for i in 0..n {
+        let exp = meas[i] as f64 * if perturb == 1 { 1.01 } else { 1.0 };
+        if !near(mean[i] as f64, exp, 1e-6) {
+            return Some((format!("{}:stationary:mean moved", who), json!({"coordinate": i, "spec": exp, "impl": mean[i]})));
+        }
+        if !((mean[n + i] as f64).abs() <= 1e-4) {
+            return Some((format!("{}:stationary:velocity not 0", who), json!({"coordinate": i, "impl": mean[n + i]})));
+        }
+    }
+    None
+}
+
+fn dist_facts(who: &str, d: f32, zero: bool) -> Mis {
+    if !(d.is_finite() && d >= 0.0) {
+        return Some((format!("{}:distance:negative or not finite", who), json!({"impl": d})));
+    }
+    if zero && d.abs() > 1e-4 {
+        return Some((format!("{}:stationary:distance not 0", who), json!({"impl": d})));
+    }
+    None
+}
+
+// ------------------------------------------------------------------------------------------------ proto
+
+fn box_of(m: &Value) -> (Universal2DBox, Vec<f32>) {
+    let v: Vec<f32> = m.as_array().expect("box").iter().map(milli).collect();
+    let angle = if ji(&m[2]) == 0 { None } else { Some(v[2]) };
+    (Universal2DBox::new(v[0], v[1], angle, v[3], v[4]), v)
+}
+
+fn weights(c: &Value) -> (f32, f32, bool) {
+    let w = jarr(c, "w");
+    let (a, b) = (ji(&w[0]), ji(&w[1]));
+    (1.0 / a as f32, 1.0 / b as f32, a == 20 && b == 160)
+}
+
+fn proto_box(c: &Value, rep: &mut Report, perturb: usize) -> Mis {
+    let (wp, wv, dflt) = weights(c);
+    let f = if dflt { Universal2DBoxKalmanFilter::default() } else { Universal2DBoxKalmanFilter::new(wp, wv) };
+    let meas: Vec<(Universal2DBox, Vec<f32>)> = jarr(c, "meas").iter().map(box_of).collect();
+    let i0 = jint(c, "i0") as usize - 1;
+    let (stat, dzero) = (jarr(c, "stat"), jarr(c, "dzero"));
+    let mut s = f.initiate(&meas[i0].0);
+    let mut seen: Vec<f64> = vec![];
+    let (m0, c0) = s.verif_raw();
+    if let Some(m) = stationary("box:initiate", &m0, &meas[i0].1, perturb).or_else(|| cov_facts("box:initiate", &c0, perturb, &mut seen)) {
+        return Some(m);
+    }
+    for (k, op) in jarr(c, "ops").iter().enumerate() {
+        rep.steps += 1;
+        let name = op[0].as_str().expect("op name");
+        let j = ji(&op[1]) as usize;
+        let who = format!("box:{}", match name { "p" => "predict", "u" => "update", _ => "distance" });
+        match name {
+            "p" => s = f.predict(&s),
+            "u" => s = f.update(&s, &meas[j - 1].0),
+            "d" => {
+                let d = f.distance(s, &meas[j - 1].0);
+                if let Some(m) = dist_facts(&who, d, ji(&dzero[k]) == 1) {
+                    return Some(m);
+                }
+                if ji(&dzero[k]) == 1 {
+                    rep.count("proto_zero_distance_checked", 1);
+                }
+            }
+            o => panic!("op {}", o),
+        }
+        let (mean, cov) = s.verif_raw();
+        if ji(&stat[k]) == 1 {
+            rep.count("proto_stationary_state_checked", 1);
+            if let Some(m) = stationary(&who, &mean, &meas[i0].1, perturb) {
+                return Some(m);
+            }
+        }
+        if let Some(m) = cov_facts(&who, &cov, perturb, &mut seen) {
+            return Some(m);
+        }
+    }
+    None
+}
+
+fn proto_vec(c: &Value, rep: &mut Report, perturb: usize) -> Mis {
+    let (wp, wv, dflt) = weights(c);
+    let vf = if dflt { Vec2DKalmanFilter::default() } else { Vec2DKalmanFilter::new(wp, wv) };
+    let pf = if perturb == 2 {
+        Point2DKalmanFilter::new(wp * 1.001, wv)
+    } else if dflt {
+        Point2DKalmanFilter::default()
+    } else {
+        Point2DKalmanFilter::new(wp, wv)
+    };
+    // measurement sets: raw coordinates, and the same as points
+    let raw: Vec<Vec<[f32; 2]>> = jarr(c, "meas")
+        .iter()
+        .map(|set| set.as_array().expect("point set").iter().map(|p| [milli(&p[0]), milli(&p[1])]).collect())
+        .collect();
+    let sets: Vec<Vec<_>> = raw.iter().map(|set| set.iter().map(|p| pt(p[0], p[1])).collect()).collect();
+    let i0 = jint(c, "i0") as usize - 1;
+    let (stat, dzero) = (jarr(c, "stat"), jarr(c, "dzero"));
+    let np = raw[i0].len();
+    let mut vs = vf.initiate(sets[i0].as_slice());
+    let mut ps: Vec<_> = (0..np).map(|i| pf.initiate(&sets[i0][i])).collect();
+    if vs.len() != np {
+        return Some(("vec:initiate:number of states".into(), json!({"impl": vs.len(), "points": np})));
+    }
+    let ops = jarr(c, "ops");
+    let mut seen: Vec<Vec<f64>> = vec![vec![]; np];
+    for k in 0..=ops.len() {
+        // k = 0: the state after initiate; k >= 1: after operation k
+        let mut who = "vec:initiate".to_string();
+        let mut vd: Vec<f32> = vec![];
+        let mut pd: Vec<f32> = vec![];
+        let mut zero = false;
+        let mut st = true;
+        if k > 0 {
+            rep.steps += 1;
+            let op = &ops[k - 1];
+            let name = op[0].as_str().expect("op name");
+            let j = ji(&op[1]) as usize;
+            who = format!("vec:{}", match name { "p" => "predict", "u" => "update", _ => "distance" });
+            st = ji(&stat[k - 1]) == 1;
+            zero = ji(&dzero[k - 1]) == 1;
+            match name {
+                "p" => {
+                    vs = vf.predict(&vs);
+                    ps = ps.iter().map(|s| pf.predict(s)).collect();
+                }
+                "u" => {
+                    vs = vf.update(&vs, sets[j - 1].as_slice());
+                    ps = ps.iter().zip(sets[j - 1].iter()).map(|(s, p)| pf.update(s, p)).collect();
+                }
+                "d" => {
+                    vd = vf.distance(&vs, sets[j - 1].as_slice());
+                    pd = ps.iter().zip(sets[j - 1].iter()).map(|(s, p)| pf.distance(s, p)).collect();
+                }
+                o => panic!("op {}", o),
+            }
+        }
+        if vs.len() != np {
+            return Some((format!("{}:number of states", who), json!({"impl": vs.len(), "points": np})));
+        }
+        if bits(&vd) != bits(&pd) {
+            return Some((format!("{}:differs from the point filter", who), json!({"vec": vd, "point": pd})));
+        }
+        for i in 0..np {
+            let (vm, vc) = vs[i].verif_raw();
+            let (pm, pc) = ps[i].verif_raw();
+            if bits(&vm) != bits(&pm) || bits(&vc) != bits(&pc) {
+                return Some((
+                    format!("{}:state differs from the point filter", who),
+                    json!({"point_index": i, "vec_mean": vm, "point_mean": pm}),
+                ));
+            }
+            // facts of the property on the point filter state (= the vector filter's, bit for bit)
+            let pwho = who.replace("vec:", "point:");
+            if st {
+                rep.count("proto_stationary_state_checked", 1);
+                if let Some(m) = stationary(&pwho, &pm, &raw[i0][i], perturb) {
+                    return Some(m);
+                }
+            }
+            if let Some(m) = cov_facts(&pwho, &pc, perturb, &mut seen[i]) {
+                return Some(m);
+            }
+            if !pd.is_empty() {
+                if let Some(m) = dist_facts(&pwho, pd[i], zero) {
+                    return Some(m);
+                }
+                if zero {
+                    rep.count("proto_zero_distance_checked", 1);
+                }
+            }
+        }
+    }
+    None
+}
+
+fn replay_proto(idx: usize, c: &Value, rep: &mut Report, perturb: usize) {
+    let ops = jarr(c, "ops");
+    let has = |n: &str| ops.iter().any(|o| o[0] == n);
+    // non-trivial: the covariance evolves under a gain (a predict and an update both occur)
+    if has("p") && has("u") {
+        rep.nontrivial += 1;
+    }
+    if jarr(c, "stat").iter().any(|s| ji(s) == 0) {
+        rep.count("proto_moving_object", 1);
+    }
+    let filter = jstr(c, "filter").to_string();
+    let r = std::panic::catch_unwind(std::panic::AssertUnwindSafe(|| match filter.as_str() {
+        "box" => proto_box(c, rep, perturb),
+        "vec" => proto_vec(c, rep, perturb),
+        o => panic!("filter {}", o),
+    }));
+    match r {
+        Ok(None) => {}
+        Ok(Some((sig, d))) => rep.mismatch(&sig, idx, c, d),
+        Err(_) => rep.mismatch(&format!("{}:proto:panic", filter), idx, c, json!({})),
+    }
+}
+
+// ------------------------------------------------------------------------------------------------ exact
+
+/// (mean position, mean velocity, pp, pv, vv) of coordinate `i` out of `n` measured coordinates
+fn coord(raw: &(Vec<f32>, Vec<f32>), i: usize, n: usize) -> [f64; 5] {
+    let (m, c) = raw;
+    let d = 2 * n;
+    [m[i] as f64, m[n + i] as f64, c[i * d + i] as f64, c[i * d + n + i] as f64, c[(n + i) * d + n + i] as f64]
+}
+
+const PARTS: [&str; 5] = ["mean", "velocity", "cov(p,p)", "cov(p,v)", "cov(v,v)"];
+
+fn cmp_exact(who: &str, step: usize, got: [f64; 5], exp: &Value, perturb: usize) -> Mis {
+    for q in 0..5 {
+        let e = rat(&exp[q]) * if perturb == 1 { 1.01 } else { 1.0 };
+        let abs = if q < 2 { 1e-4 } else { 1e-6 };
+        if !near(got[q], e, abs) {
+            return Some((format!("{}:exact:{}", who, PARTS[q]), json!({"after_op": step + 1, "spec": e, "impl": got[q]})));
+        }
+    }
+    None
+}
+
+fn exact_targets(c: &Value, rep: &mut Report, perturb: usize) -> Mis {
+    let z: Vec<f32> = jarr(c, "z").iter().map(|v| ji(v) as f32).collect();
+    let h = rat(jget(c, "h"));
+    let (wp, wv) = (rat(jget(c, "wp")), rat(jget(c, "wv")));
+    let ops: Vec<&str> = jarr(c, "ops").iter().map(|o| o.as_str().expect("op")).collect();
+    let st = jarr(c, "st");
+    let dexp = rat(jget(c, "d")) * if perturb == 1 { 1.01 } else { 1.0 };
+    const OTHER: f32 = 50.0;
+    for axis in 0..2usize {
+        // ---- box filter: the chosen centre coordinate moves, everything else is stationary
+        let who = format!("box-{}", if axis == 0 { "x" } else { "y" });
+        let f = Universal2DBoxKalmanFilter::new(wp as f32, wv as f32);
+        let bx = |v: f32| {
+            if axis == 0 {
+                Universal2DBox::new(v, OTHER, None, 1.0, h as f32)
+            } else {
+                Universal2DBox::new(OTHER, v, None, 1.0, h as f32)
+            }
+        };
+        let mut s = f.initiate(&bx(z[0]));
+        let mut seen: Vec<f64> = vec![];
+        let mut nu = 0;
+        for (k, op) in ops.iter().enumerate() {
+            rep.steps += 1;
+            if *op == "p" {
+                s = f.predict(&s);
+            } else {
+                nu += 1;
+                s = f.update(&s, &bx(z[nu]));
+            }
+            let raw = s.verif_raw();
+            if let Some(m) = cmp_exact(&who, k, coord(&raw, axis, 5), &st[k], perturb).or_else(|| cov_facts(&who, &raw.1, perturb, &mut seen)) {
+                return Some(m);
+            }
+            // the stationary coordinates stay where they are
+            let other = coord(&raw, 1 - axis, 5);
+            if !near(other[0], OTHER as f64, 1e-6) || !near(raw.0[4] as f64, h, 1e-6) {
+                return Some((format!("{}:exact:stationary coordinate moved", who), json!({"mean": raw.0})));
+            }
+        }
+        let d = f.distance(s, &bx(z[3])) as f64;
+        if !near(d, dexp, 1e-4) {
+            return Some((format!("{}:exact:distance", who), json!({"spec": dexp, "impl": d})));
+        }
+        // ---- point filter: no height scaling, so the weights are w * h
+        let who = format!("point-{}", if axis == 0 { "x" } else { "y" });
+        let f = Point2DKalmanFilter::new((wp * h) as f32, (wv * h) as f32);
+        let p = |v: f32| if axis == 0 { (v, OTHER) } else { (OTHER, v) };
+        let mut s = f.initiate(&pt(p(z[0]).0, p(z[0]).1));
+        let mut seen: Vec<f64> = vec![];
+        let mut nu = 0;
+        for (k, op) in ops.iter().enumerate() {
+            rep.steps += 1;
+            if *op == "p" {
+                s = f.predict(&s);
+            } else {
+                nu += 1;
+                s = f.update(&s, &pt(p(z[nu]).0, p(z[nu]).1));
+            }
+            let raw = s.verif_raw();
+            if let Some(m) = cmp_exact(&who, k, coord(&raw, axis, 2), &st[k], perturb).or_else(|| cov_facts(&who, &raw.1, perturb, &mut seen)) {
+                return Some(m);
+            }
+        }
+        let d = f.distance(&s, &pt(p(z[3]).0, p(z[3]).1)) as f64;
+        if !near(d, dexp, 1e-4) {
+            return Some((format!("{}:exact:distance", who), json!({"spec": dexp, "impl": d})));
+        }
+    }
+    None
+}
+
+fn replay_exact(idx: usize, c: &Value, rep: &mut Report, perturb: usize) {
+    // non-trivial: the object really moves (not all four measurements equal)
+    let z = jarr(c, "z");
+    if z.iter().any(|v| v != &z[0]) {
+        rep.nontrivial += 1;
+    }
+    let r = std::panic::catch_unwind(std::panic::AssertUnwindSafe(|| exact_targets(c, rep, perturb)));
+    match r {
+        Ok(None) => {}
+        Ok(Some((sig, d))) => rep.mismatch(&sig, idx, c, d),
+        Err(_) => rep.mismatch("exact:panic", idx, c, json!({})),
+    }
+}
+
+pub fn replay_case(idx: usize, c: &Value, rep: &mut Report, perturb: usize) {
+    rep.cases += 1;
+    rep.sample(c);
+    match jstr(c, "kind") {
+        "gate" => {
+            rep.count("gate_cases", 1);
+            replay_gate(idx, c, rep, perturb)
+        }
+        "proto" => {
+            rep.count("proto_cases", 1);
+            replay_proto(idx, c, rep, perturb)
+        }
+        "exact" => {
+            rep.count("exact_cases", 1);
+            replay_exact(idx, c, rep, perturb)
+        }
+        o => panic!("kind {}", o),
+    }
+}
+
+pub fn main(opts: &Opts) {
+    // --perturb 1: every expected number * 1.01; 2: the point filter gets a slightly different weight than the
+    // vector filter; 3 / 4: the covariance is made indefinite / asymmetric before the covariance facts (liveness
+    // demonstrations only)
+    let perturb = opts.usize("perturb", 0);
+    let mut rep = Report::new();
+    for_each_case(opts, |idx, c| replay_case(idx, &c, &mut rep, perturb));
+    rep.finish();
 }
